@@ -1,0 +1,212 @@
+//go:build verif
+
+// Contracts for package frame (comment-only; read by /verif/govc, never
+// compiled into the library).  Specification functions (spec*) and ghost
+// accessors (stream*, log*, crcFold, absorb*, digestByte) live in /verif/spec.
+
+package frame
+
+// ---------------------------------------------------------------- integer codecs
+
+//@ func uint24Encode
+//@   requires len(buf) >= 3
+//@   ensures  buf[0] == byte(in & 0xFF) && buf[1] == byte((in >> 8) & 0xFF) && buf[2] == byte((in >> 16) & 0xFF)
+//@   canary   buf[1] == byte(in >> 16)
+//@   modifies buf[:]
+
+//@ func uint24Decode
+//@   requires len(in) >= 3
+//@   ensures  res == uint32(in[0]) + uint32(in[1])*256 + uint32(in[2])*65536
+//@   modifies nothing
+
+//@ func uint48Encode
+//@   requires len(buf) >= 6
+//@   ensures  buf[0] == byte(in) && buf[1] == byte(in >> 8) && buf[2] == byte(in >> 16)
+//@   ensures  buf[3] == byte(in >> 24) && buf[4] == byte(in >> 32) && buf[5] == byte(in >> 40)
+//@   modifies buf[:]
+
+//@ func uint48Decode
+//@   requires len(in) >= 6
+//@   ensures  res == uint64(in[0]) + uint64(in[1])<<8 + uint64(in[2])<<16 + uint64(in[3])<<24 + uint64(in[4])<<32 + uint64(in[5])<<40
+//@   ensures  res < 1<<48
+//@   modifies nothing
+
+// ---------------------------------------------------------------- empty-byte helpers
+
+//@ func hasEmptyBytes
+//@   ensures  res == (len(buf) > 1 && buf[len(buf)-1] == 0)
+//@   modifies nothing
+
+//@ func removeEmptyBytes
+//@   ensures  sameArray(res, buf) && len(res) <= len(buf)
+//@   ensures  len(buf) >= 1 ==> len(res) >= 1
+//@   ensures  len(buf) == 0 ==> len(res) == 0
+//@   ensures  forall k int :: len(res) <= k && k < len(buf) ==> buf[k] == 0
+//@   ensures  len(res) > 1 ==> buf[len(res)-1] != 0
+//@   canary   len(res) == len(buf)
+//@   modifies nothing
+//@   loop 0 bind end int
+//@   loop 0 invariant 0 <= end && end <= len(buf) && (len(buf) >= 1 ==> end >= 1) && (len(buf) == 0 ==> end == 0)
+//@   loop 0 invariant forall k int :: end <= k && k < len(buf) ==> buf[k] == 0
+//@   loop 0 decreases end
+
+// ---------------------------------------------------------------- checksum and signature
+
+//@ func (V1Frame).GenerateChecksum
+//@   requires f.Message != nil && specIsRaw(f.Message)
+//@   ensures  res == specV1CRC(byte(len(specRawPayload(f.Message))), f.SequenceNumber, f.SystemID, f.ComponentID,
+//@                             byte(specRawID(f.Message)), specRawPayload(f.Message), crcExtra)
+//@   canary   res == 0
+//@   modifies nothing
+
+//@ func (V2Frame).GenerateChecksum
+//@   requires f.Message != nil && specIsRaw(f.Message)
+//@   ensures  res == specV2CRC(byte(len(specRawPayload(f.Message))), f.IncompatibilityFlag, f.CompatibilityFlag,
+//@                             f.SequenceNumber, f.SystemID, f.ComponentID, specRawID(f.Message),
+//@                             specRawPayload(f.Message), crcExtra)
+//@   canary   res == 0
+//@   modifies nothing
+
+//@ func (V2Frame).GenerateSignature
+//@   requires key != nil && f.Message != nil && specIsRaw(f.Message)
+//@   ensures  res != nil && freshPtr(res)
+//@   ensures  specSigMatches(*res, specSigState(key, byte(len(specRawPayload(f.Message))), f.IncompatibilityFlag,
+//@               f.CompatibilityFlag, f.SequenceNumber, f.SystemID, f.ComponentID, specRawID(f.Message),
+//@               specRawPayload(f.Message), f.Checksum, f.SignatureLinkID, f.SignatureTimestamp))
+//@   canary   res[0] == 0
+//@   modifies nothing
+
+//@ func (V2Frame).IsSigned
+//@   ensures  res == (f.IncompatibilityFlag & 1 != 0)
+//@   modifies nothing
+
+// ---------------------------------------------------------------- marshalling
+
+//@ func (V1Frame).marshalTo returns (n, err)
+//@   requires f.Message != nil && len(msgEncoded) <= 255 && len(buf) >= 263
+//@   ensures  f.Message.GetID() > 255 ==> err != nil && n == 0 && unchangedBytes(buf)
+//@   ensures  f.Message.GetID() <= 255 ==> err == nil && n == specV1Len(len(msgEncoded))
+//@   ensures  f.Message.GetID() <= 255 ==> (forall j int :: 0 <= j && j < n ==>
+//@              buf[j] == specV1Wire(f.SequenceNumber, f.SystemID, f.ComponentID, f.Message.GetID(), msgEncoded, f.Checksum, j))
+//@   canary   n == 8
+//@   modifies buf[:]
+
+//@ func (V2Frame).marshalTo returns (n, err)
+//@   requires f.Message != nil && len(msgEncoded) <= 255 && len(buf) >= 280
+//@   requires f.IncompatibilityFlag & 1 != 0 ==> f.Signature != nil
+//@   ensures  err == nil && n == specV2Len(len(msgEncoded), f.IncompatibilityFlag & 1 != 0)
+//@   ensures  forall j int :: 0 <= j && j < n ==>
+//@              buf[j] == specV2Wire(f.IncompatibilityFlag, f.CompatibilityFlag, f.SequenceNumber, f.SystemID, f.ComponentID,
+//@                                   f.Message.GetID(), msgEncoded, f.Checksum, f.SignatureLinkID, f.SignatureTimestamp,
+//@                                   specSigOf(f.Signature), j)
+//@   canary   n == 12
+//@   modifies buf[:]
+
+// ---------------------------------------------------------------- unmarshalling (magic byte already consumed)
+
+//@ func (*V1Frame).unmarshal
+//@   requires f != nil && br != nil
+//@   ensures  (err == nil) == specV1Complete(br, old(streamPos(br)))
+//@   ensures  err == nil ==> streamPos(br) == old(streamPos(br)) + specV1Size(br, old(streamPos(br)))
+//@   ensures  err == nil ==> specV1Parsed(f, br, old(streamPos(br)))
+//@   ensures  err == nil ==> freshPtr(specRawPtr(f.Message)) && freshBytes(specRawPayload(f.Message))
+//@   ensures  err != nil ==> old(streamPos(br)) <= streamPos(br) && streamPos(br) <= streamAvail(br)
+//@   canary   err != nil
+//@   canary   err == nil
+//@   modifies *f, *br
+
+//@ func (*V2Frame).unmarshal
+//@   requires f != nil && br != nil
+//@   ensures  (err == nil) == specV2Complete(br, old(streamPos(br)))
+//@   ensures  err == nil ==> streamPos(br) == old(streamPos(br)) + specV2Size(br, old(streamPos(br)))
+//@   ensures  err == nil ==> specV2Parsed(f, br, old(streamPos(br)))
+//@   ensures  err == nil && specV2Signed(br, old(streamPos(br))) ==> specV2SigParsed(f, br, old(streamPos(br))) && freshPtr(f.Signature)
+//@   ensures  err == nil && !specV2Signed(br, old(streamPos(br))) ==> f.Signature == old(f.Signature) &&
+//@              f.SignatureLinkID == old(f.SignatureLinkID) && f.SignatureTimestamp == old(f.SignatureTimestamp)
+//@   ensures  err == nil ==> freshPtr(specRawPtr(f.Message)) && freshBytes(specRawPayload(f.Message))
+//@   ensures  err != nil ==> old(streamPos(br)) <= streamPos(br) && streamPos(br) <= streamAvail(br)
+//@   canary   err != nil
+//@   canary   err == nil
+//@   modifies *f, *br
+
+// ---------------------------------------------------------------- frame writer
+
+//@ func (*Writer).Initialize
+//@   requires w != nil
+//@   ensures  (err != nil) == (old(w.ByteWriter) == nil)
+//@   ensures  err == nil ==> len(w.bw) == 512 && freshBytes(w.bw)
+//@   ensures  err == nil ==> (old(w.OutComponentID) < 1 ==> w.OutComponentID == 1) && (old(w.OutComponentID) >= 1 ==> w.OutComponentID == old(w.OutComponentID))
+//@   modifies w.bw, w.OutComponentID
+
+//@ func (*Writer).writeFrameInner
+//@   requires w != nil && w.ByteWriter != nil && len(w.bw) == 512
+//@   requires fr != nil && specRawOK(fr) && specSigFieldOK(fr)
+//@   ensures  [refused]  specRefusedByVersion(fr) ==> err != nil && logLen() == 0
+//@   ensures  [one-write] !specRefusedByVersion(fr) ==> logLen() == 1 && logCallee(0, "io.Writer.Write") &&
+//@              logN(0) == specFrameLen(fr) && err == logErr(0)
+//@   ensures  [layout] !specRefusedByVersion(fr) ==> (forall j int :: 0 <= j && j < specFrameLen(fr) ==> logByte(0, j) == specFrameWire(fr, j))
+//@   canary   logLen() == 0
+//@   modifies w.bw[:], ghost:log
+
+//@ func (*Writer).Write
+//@   requires w != nil && w.ByteWriter != nil && len(w.bw) == 512 && fr != nil && specSigFieldOK(fr)
+//@   requires specFrameMessage(fr) != nil && specIsRaw(specFrameMessage(fr)) ==> len(specRawPayload(specFrameMessage(fr))) <= 255
+//@   ensures  [nil-message] old(specFrameMessage(fr)) == nil ==> err != nil && logLen() == 0
+//@   ensures  [raw-refused] old(specRawOK(fr)) && specRefusedByVersion(fr) ==> err != nil && logLen() == 0
+//@   ensures  [raw-one-write] old(specRawOK(fr)) && !specRefusedByVersion(fr) ==> logLen() == 1 && logCallee(0, "io.Writer.Write") &&
+//@              logN(0) == specFrameLen(fr) && err == logErr(0)
+//@   ensures  [raw-layout] old(specRawOK(fr)) && !specRefusedByVersion(fr) ==>
+//@              (forall j int :: 0 <= j && j < specFrameLen(fr) ==> logByte(0, j) == specFrameWire(fr, j))
+//@   ensures  [not-in-dialect] old(specFrameMessage(fr)) != nil && !old(specIsRaw(specFrameMessage(fr))) &&
+//@              (w.DialectRW == nil || !ufDialectHas(w.DialectRW, old(specFrameMessage(fr).GetID()))) ==> err != nil && logLen() == 0
+//@   ensures  [at-most-one] logLen() <= 1
+//@   ensures  [whole-frame] logLen() == 1 ==> specRawOK(fr) && logN(0) == specFrameLen(fr) &&
+//@              (forall j int :: 0 <= j && j < specFrameLen(fr) ==> logByte(0, j) == specFrameWire(fr, j))
+//@   modifies w.bw[:], ghost:log, *fr
+
+// ---------------------------------------------------------------- frame reader
+
+//@ func (*Reader).Initialize
+//@   requires r != nil
+//@   ensures  (err == nil) == (r.BufByteReader != nil)
+//@   ensures  old(r.ByteReader) == nil ==> r.BufByteReader == old(r.BufByteReader)
+//@   modifies r.BufByteReader
+
+//@ func (*Reader).Read returns (fr, err)
+//@   let br   = r.BufByteReader
+//@   let p0   = old(streamPos(r.BufByteReader))
+//@   let av   = streamAvail(r.BufByteReader)
+//@   let pos  = streamPos(r.BufByteReader)
+//@   let cur0 = old(r.curReadSignatureTime)
+//@   let cur  = r.curReadSignatureTime
+//@   let inD  = (r.DialectRW != nil && ufDialectHas(r.DialectRW, specWireID(r.BufByteReader, p0)))
+//@   let keyOK = specKeyGateOK(r.InKey, cur0, r.BufByteReader, p0)
+//@   requires r != nil && br != nil
+//@   -- C05: outcome trichotomy, progress, consumed bytes
+//@   ensures  [transport-error] p0 >= av ==> fr == nil && err == streamErr(br) && pos == p0
+//@   ensures  [junk-byte] p0 < av && !specIsMagic(streamAt(br, p0)) ==> fr == nil && dynIs(err, "frame.ReadError") && pos == p0 + 1
+//@   ensures  [incomplete] p0 < av && specIsMagic(streamAt(br, p0)) && !specFrameComplete(br, p0) ==>
+//@              fr == nil && dynIs(err, "frame.ReadError") && p0 + 1 <= pos && pos <= av
+//@   ensures  [consumed] p0 < av && specFrameComplete(br, p0) ==> pos == p0 + specFrameSize(br, p0)
+//@   ensures  [frame-xor-error] (fr != nil) == (err == nil)
+//@   ensures  [parse-error] fr == nil && p0 < av ==> dynIs(err, "frame.ReadError")
+//@   ensures  [no-invented-frame] fr != nil ==> p0 < av && specFrameComplete(br, p0) && specHeaderMatches(fr, br, p0)
+//@   -- C01/C08: without a dialect entry the returned frame is exactly the wire
+//@   ensures  [raw-frame] fr != nil && !inD ==> specFrameMatches(fr, br, p0)
+//@   ensures  [complete-accepted] p0 < av && specFrameComplete(br, p0) && keyOK && !inD ==> fr != nil
+//@   -- C06/C07: key gate and replay window
+//@   ensures  [key-gate] fr != nil ==> keyOK
+//@   ensures  [window-delivered] fr != nil && r.InKey != nil ==> cur == specMax64(cur0, specWireTS(br, p0))
+//@   ensures  [window-nokey] r.InKey == nil ==> cur == cur0
+//@   ensures  [window-refused] !(p0 < av && specFrameComplete(br, p0) && keyOK) ==> cur == cur0
+//@   ensures  [window-either] cur == cur0 || (p0 < av && specFrameComplete(br, p0) && cur == specMax64(cur0, specWireTS(br, p0)))
+//@   -- C02: checksum gate
+//@   ensures  [crc-gate] fr != nil && inD ==>
+//@              specWireCRC(br, p0) == specStreamCRC(br, p0, ufDialectExtra(r.DialectRW, specWireID(br, p0)))
+//@   ensures  [crc-accepted] p0 < av && specFrameComplete(br, p0) && keyOK && inD &&
+//@              specWireCRC(br, p0) == specStreamCRC(br, p0, ufDialectExtra(r.DialectRW, specWireID(br, p0))) &&
+//@              ufDecodable(ufDialectCodec(r.DialectRW, specWireID(br, p0)),
+//@                          streamSlice(br, specWirePayloadAt(br, p0), specWireLen(br, p0)), specIsV2(br, p0)) ==> fr != nil
+//@   canary   fr == nil
+//@   canary   fr != nil
+//@   modifies r.curReadSignatureTime, *r.BufByteReader
